@@ -161,6 +161,91 @@ def _splice(blocks, locals_, b, callee_j, arg_ops, istack, callee_key):
     blocks[b]["inlined_call"] = callee_key
 
 
+def _fuse_adaptor(blocks, locals_, b, view):
+    """`for y in it.filter(p) { .. }`  ==  `for y in it { if !p(&y) { continue }; .. }`,  `for y in it.map(f) { .. }`  ==
+    `for x in it { let y = f(x); .. }`  (rust-src core/src/iter/adapters/{filter,map}.rs: `Filter::next = self.iter.find(&mut
+    self.predicate)`, `Map::next = self.iter.next().map(&mut self.f)`).  Applied to the loops that the std models of
+    try_fold / fold / for_each / try_for_each introduce, when the adaptor value is used by that loop only."""
+    t = blocks[b]["term"]
+    src = strip(view.resolve_operand(t["args"][0]), keep_var=True)
+    for _ in range(6):
+        if src[0] in ("ref", "deref"):
+            src = src[2] if src[0] == "ref" else src[1]
+        else:
+            break
+    if src[0] != "var" or len(src) < 3 or src[2][0] != "call" or src[2][1] not in ("std::iter::Iterator::filter", "std::iter::Iterator::map") or len(src[2]) < 4:
+        return False
+    it_local, kind, dbb = src[1], src[2][1].split("::")[-1], src[2][3]
+    dt = blocks[dbb]["term"]
+    if dt["t"] != "call" or dt["dest"]["proj"] or dt["dest"]["l"] != it_local or len(dt["args"]) != 2 or dt.get("target") is None:
+        return False
+    # the adaptor value is borrowed for this `next` only (plus drops)
+    mentions = 0
+    for bl in blocks:
+        if bl["cleanup"]:
+            continue
+        mentions += sum(1 for st in bl["stmts"] if _mentions_local(st, it_local))
+        if bl["term"]["t"] != "drop":
+            mentions += 1 if _mentions_local(bl["term"], it_local) else 0
+    if mentions != 2:   # the defining call and one `&mut it`
+        return False
+    # the loop shape: next -> switch on discr -> Some arm starting with the payload read
+    tb = t.get("target")
+    if tb is None or blocks[tb]["term"]["t"] != "switch":
+        return False
+    arms = dict((v, tg) for (v, tg) in blocks[tb]["term"]["arms"])
+    if 1 not in arms:
+        return False
+    sb = arms[1]
+    n_local = t["dest"]["l"]
+    pay = None
+    for i, st in enumerate(blocks[sb]["stmts"]):
+        if st.get("s") == "assign" and st["rv"]["r"] == "use" and st["rv"]["op"]["o"] in ("copy", "move") and st["rv"]["op"]["place"]["l"] == n_local and [p_.get("p") for p_ in st["rv"]["op"]["place"]["proj"]] == ["downcast", "field"] and not st["place"]["proj"]:
+            pay = i
+            break
+    if pay is None or len([p_ for p_ in view.preds()[sb] if not blocks[p_]["cleanup"]]) != 1:
+        return False
+    self_ty = (dt["callee"].get("args") or ["?"])[0]
+    span = blocks[sb].get("span")
+    fil = blocks[sb].get("file")
+    line = blocks[sb]["stmts"][pay].get("line")
+    A = lambda place, rv: {"s": "assign", "place": place, "rv": rv, "line": line, "model": True}  # noqa: E731
+
+    def new_local(ty):
+        locals_.append({"ty": ty, "mut": True, "model": True})
+        return len(locals_) - 1
+    # 1. the adaptor is taken apart where it was built: it = inner; f = closure
+    f_local = new_local(locals_[dt["args"][1]["place"]["l"]]["ty"] if dt["args"][1].get("place") and not dt["args"][1]["place"]["proj"] else "?")
+    blocks[dbb]["stmts"].append(A(_pl(it_local), {"r": "use", "op": copy.deepcopy(dt["args"][0])}))
+    blocks[dbb]["stmts"].append(A(_pl(f_local), {"r": "use", "op": copy.deepcopy(dt["args"][1])}))
+    blocks[dbb]["term"] = {"t": "goto", "target": dt["target"]}
+    locals_[it_local] = dict(locals_[it_local], ty=self_ty)
+    # 2. `next` is the inner iterator's
+    t["callee"] = dict(t["callee"], resolved={"path": "<%s as std::iter::Iterator>::next" % self_ty, "full": "<%s as std::iter::Iterator>::next" % self_ty, "args": [], "local": False, "kind": "Item"}, args=[self_ty], fused_from=kind)
+    # 3. the Some arm
+    head = blocks[sb]["stmts"][:pay + 1]
+    rest = blocks[sb]["stmts"][pay + 1:]
+    x = blocks[sb]["stmts"][pay]["place"]["l"]
+    restb = len(blocks)
+    blocks.append({"stmts": rest, "term": blocks[sb]["term"], "cleanup": False, "span": span, "file": fil, "model": True, "istack": blocks[sb].get("istack", ())})
+    pr = new_local("&mut " + locals_[f_local]["ty"])
+    targs = new_local("(Item,)")
+    if kind == "filter":
+        rx = new_local("&" + locals_[x]["ty"])
+        c = new_local("bool")
+        testb = len(blocks)
+        blocks.append({"stmts": [], "term": {"t": "switch", "discr": {"o": "move", "place": _pl(c)}, "discr_ty": "bool", "arms": [[0, b]], "otherwise": restb}, "cleanup": False, "span": span, "file": fil, "model": True, "istack": blocks[sb].get("istack", ())})
+        blocks[sb]["stmts"] = head + [A(_pl(rx), {"r": "ref", "bk": "shared", "place": _pl(x)}), A(_pl(pr), {"r": "ref", "bk": "mut", "place": _pl(f_local)}), A(_pl(targs), {"r": "aggregate", "ak": "tuple", "ops": [_mv(rx)]})]
+        blocks[sb]["term"] = _call("std::ops::FnMut::call_mut", [_mv(pr), _mv(targs)], c, testb, "std::ops::FnMut", "call_mut")
+    else:
+        x0 = new_local("Item")
+        head[-1] = dict(head[-1], place=_pl(x0))
+        blocks[sb]["stmts"] = head + [A(_pl(pr), {"r": "ref", "bk": "mut", "place": _pl(f_local)}), A(_pl(targs), {"r": "aggregate", "ak": "tuple", "ops": [_mv(x0)]})]
+        blocks[sb]["term"] = _call("std::ops::FnMut::call_mut", [_mv(pr), _mv(targs)], x, restb, "std::ops::FnMut", "call_mut")
+    blocks[sb]["term"]["model"] = True
+    return True
+
+
 def inline_body(facts, key, opaque):
     """-> (blocks, locals, [inlined callee keys]) for body `key`, or None if nothing was inlined"""
     j = facts.j["bodies"][key]
@@ -185,6 +270,14 @@ def inline_body(facts, key, opaque):
             path = ce.get("path")
             if path is None:
                 continue
+            if path == "std::iter::Iterator::next" and t.get("model") and len(t["args"]) == 1 and not ce.get("fused"):
+                if view is None:
+                    view = Body(facts, key, dict(j, blocks=blocks, locals=locals_), ssa=False)
+                if _fuse_adaptor(blocks, locals_, b, view):
+                    done.append("std-model:adaptor-fusion")
+                    progress = True
+                    break
+                ce["fused"] = True   # nothing (more) to fuse here
             r = ce.get("resolved")
             target = r["path"] if r and r.get("local") and r["path"] in facts.j["bodies"] else (path if path in facts.j["bodies"] else None)
             if target and target != key and target not in istack and inlinable(facts, target, opaque, key):
@@ -244,6 +337,21 @@ def inline_body(facts, key, opaque):
                     done.append("std-model:Iterator::try_for_each")
                     progress = True
                     break
+            if path == "std::iter::Iterator::try_fold" and len(t["args"]) == 3 and len(ce.get("args", [])) >= 4 and not t["dest"]["proj"]:
+                # generic arguments: [Self, B, F, R]
+                ret_ty = ce["args"][3]
+                if ret_ty.startswith("std::result::Result<"):
+                    cj = model_try_fold(ce["args"][0], ce["args"][1], ce["args"][2], ret_ty, blocks[b].get("span"))
+                    _splice(blocks, locals_, b, cj, t["args"], istack, "std-model:Iterator::try_fold")
+                    done.append("std-model:Iterator::try_fold")
+                    progress = True
+                    break
+            if path == "std::iter::Iterator::fold" and len(t["args"]) == 3 and len(ce.get("args", [])) >= 3 and not t["dest"]["proj"]:
+                cj = model_fold(ce["args"][0], ce["args"][1], ce["args"][2], blocks[b].get("span"))
+                _splice(blocks, locals_, b, cj, t["args"], istack, "std-model:Iterator::fold")
+                done.append("std-model:Iterator::fold")
+                progress = True
+                break
             if path == "std::iter::Iterator::for_each" and len(t["args"]) == 2 and len(ce.get("args", [])) >= 2 and not t["dest"]["proj"]:
                 cj = model_for_each(ce["args"][0], ce["args"][1], blocks[b].get("span"))
                 _splice(blocks, locals_, b, cj, t["args"], istack, "std-model:Iterator::for_each")
@@ -364,6 +472,57 @@ def model_for_each(iter_ty, clo_ty, span):
         B([], {"t": "unreachable"}),
     ]
     return {"kind": "fn", "arg_count": 2, "locals": locals_, "blocks": blocks, "span": span, "debug": []}
+
+
+def model_try_fold(iter_ty, acc_ty, clo_ty, ret_ty, span):
+    """MIR model of `Iterator::try_fold(&mut iter, init, f)` for R = Result<B, E> (rust-src core/src/iter/traits/iterator.rs:
+    `let mut accum = init; while let Some(x) = self.next() { accum = f(accum, x)?; } try { accum }`):
+        acc = init; loop { match iter.next() { None => return Ok(acc), Some(x) => match f(acc, x) { Ok(a) => acc = a, Err(e) => return Err(e) } } }"""
+    L = lambda ty: {"ty": ty, "mut": True, "model": True}  # noqa: E731
+    #            0          1                    2           3           4             5                               6           7        8          9           10                   11               12
+    locals_ = [L(ret_ty), L("&mut " + iter_ty), L(acc_ty), L(clo_ty), L(acc_ty), L("&mut " + iter_ty), L("std::option::Option<Item>"), L("isize"), L("Item"), L(ret_ty), L("isize"), L("&mut " + clo_ty), L("(Acc, Item)")]
+    A = lambda place, rv: {"s": "assign", "place": place, "rv": rv, "line": (span or {}).get("line"), "model": True}  # noqa: E731
+    B = lambda stmts, term: {"stmts": stmts, "term": term, "cleanup": False, "span": span, "model": True}  # noqa: E731
+    blocks = [
+        B([A(_pl(4), {"r": "use", "op": _mv(2)})], {"t": "goto", "target": 1}),
+        B([A(_pl(5), {"r": "ref", "bk": "mut", "place": _pl(1, {"p": "deref"})})], _call("std::iter::Iterator::next", [_mv(5)], 6, 2, "std::iter::Iterator", "next")),
+        B([A(_pl(7), {"r": "discr", "place": _pl(6), "ety": "std::option::Option<Item>", "enum": "std::option::Option", "variants": ["None", "Some"], "discrs": [0, 1]})],
+          {"t": "switch", "discr": _mv(7), "discr_ty": "isize", "arms": [[0, 3], [1, 4]], "otherwise": 8}),
+        B([A(_pl(0), {"r": "aggregate", "ak": "adt", "path": "std::result::Result", "variant": "Ok", "variant_idx": 0, "args": [], "fields": ["0"], "ops": [_mv(4)]})], {"t": "return"}),
+        B([A(_pl(8), {"r": "use", "op": _mv(6, {"p": "downcast", "name": "Some", "i": 1}, {"p": "field", "i": 0, "name": "0"})}),
+           A(_pl(11), {"r": "ref", "bk": "mut", "place": _pl(3)}),
+           A(_pl(12), {"r": "aggregate", "ak": "tuple", "ops": [_mv(4), _mv(8)]})],
+          _call("std::ops::FnMut::call_mut", [_mv(11), _mv(12)], 9, 5, "std::ops::FnMut", "call_mut")),
+        B([A(_pl(10), {"r": "discr", "place": _pl(9), "ety": ret_ty, "enum": "std::result::Result", "variants": ["Ok", "Err"], "discrs": [0, 1]})],
+          {"t": "switch", "discr": _mv(10), "discr_ty": "isize", "arms": [[0, 6], [1, 7]], "otherwise": 8}),
+        B([A(_pl(4), {"r": "use", "op": _mv(9, {"p": "downcast", "name": "Ok", "i": 0}, {"p": "field", "i": 0, "name": "0"})})], {"t": "goto", "target": 1}),
+        B([A(_pl(0), {"r": "aggregate", "ak": "adt", "path": "std::result::Result", "variant": "Err", "variant_idx": 1, "args": [], "fields": ["0"],
+                      "ops": [_mv(9, {"p": "downcast", "name": "Err", "i": 1}, {"p": "field", "i": 0, "name": "0"})]})], {"t": "return"}),
+        B([], {"t": "unreachable"}),
+    ]
+    return {"kind": "fn", "arg_count": 3, "locals": locals_, "blocks": blocks, "span": span, "debug": []}
+
+
+def model_fold(iter_ty, acc_ty, clo_ty, span):
+    """MIR model of `Iterator::fold(iter, init, f)`: `let mut accum = init; while let Some(x) = self.next() { accum = f(accum, x); } accum`"""
+    L = lambda ty: {"ty": ty, "mut": True, "model": True}  # noqa: E731
+    locals_ = [L(acc_ty), L(iter_ty), L(acc_ty), L(clo_ty), L(acc_ty), L("&mut " + iter_ty), L("std::option::Option<Item>"), L("isize"), L("Item"), L(acc_ty), L("&mut " + clo_ty), L("(Acc, Item)")]
+    A = lambda place, rv: {"s": "assign", "place": place, "rv": rv, "line": (span or {}).get("line"), "model": True}  # noqa: E731
+    B = lambda stmts, term: {"stmts": stmts, "term": term, "cleanup": False, "span": span, "model": True}  # noqa: E731
+    blocks = [
+        B([A(_pl(4), {"r": "use", "op": _mv(2)})], {"t": "goto", "target": 1}),
+        B([A(_pl(5), {"r": "ref", "bk": "mut", "place": _pl(1)})], _call("std::iter::Iterator::next", [_mv(5)], 6, 2, "std::iter::Iterator", "next")),
+        B([A(_pl(7), {"r": "discr", "place": _pl(6), "ety": "std::option::Option<Item>", "enum": "std::option::Option", "variants": ["None", "Some"], "discrs": [0, 1]})],
+          {"t": "switch", "discr": _mv(7), "discr_ty": "isize", "arms": [[0, 3], [1, 4]], "otherwise": 6}),
+        B([A(_pl(0), {"r": "use", "op": _mv(4)})], {"t": "return"}),
+        B([A(_pl(8), {"r": "use", "op": _mv(6, {"p": "downcast", "name": "Some", "i": 1}, {"p": "field", "i": 0, "name": "0"})}),
+           A(_pl(10), {"r": "ref", "bk": "mut", "place": _pl(3)}),
+           A(_pl(11), {"r": "aggregate", "ak": "tuple", "ops": [_mv(4), _mv(8)]})],
+          _call("std::ops::FnMut::call_mut", [_mv(10), _mv(11)], 9, 5, "std::ops::FnMut", "call_mut")),
+        B([A(_pl(4), {"r": "use", "op": _mv(9)})], {"t": "goto", "target": 1}),
+        B([], {"t": "unreachable"}),
+    ]
+    return {"kind": "fn", "arg_count": 3, "locals": locals_, "blocks": blocks, "span": span, "debug": []}
 
 
 # ---------------------------------------------------------------------------------------------------------------------
@@ -673,6 +832,18 @@ def inlined_facts(facts, opaque):
             continue
         newb[k] = dict(j, blocks=blocks, locals=locals_)
         report[k] = done
+    # state-passing folds -> in-place mutation (purlsa.coalesce)
+    from . import coalesce
+    for k in list(newb):
+        if not any(str(d).startswith("std-model:Iterator::try_fold") or str(d).startswith("std-model:Iterator::fold") for d in report.get(k, [])):
+            continue
+        # on the normal form (threaded, versions split): a result built in several match arms has one definition per path there
+        view = Body(facts, k, newb[k], ssa=True)
+        nf = coalesce.forward_aggregates(view)
+        nm = coalesce.coalesce_moves(view)
+        if nf or nm:
+            newb[k] = dict(newb[k], blocks=view.blocks, locals=view.locals)
+            report[k].append("fold-state: %d reads forwarded, %d moves coalesced" % (nf, nm))
     # push loops over a computed item -> extend(map(..)) with a synthetic closure (purlsa.roll.roll_map_push_loops)
     from . import roll
     synth = {}
